@@ -8,7 +8,7 @@
     buffer-size sequence and loop fuel.  The [_zstd] theorems are kept for the files that
     import them; the unrestricted ones follow them. *)
 From ZV Require Import Base.Bytes Gen.GenConsts Format.Compint Format.Header Format.ParseImpl Format.ParseProofs
-                       Format.ParseExamples Read.ReadSpec Read.CompRead Read.ReadLemmas Read.ReadProofs Read.ReadNocomp Read.ReadExamples.
+                       Format.ParseExamples Read.ReadSpec Read.CompRead Read.ReadLemmas Read.ReadProofs Read.ReadNocomp Read.ReadComplete Read.ReadExamples.
 Local Open Scope N_scope.
 
 (** T2.1 whatever the bytes [f], the hash [H], the decoder [zdecomp], the buffer sizes and the
@@ -107,6 +107,31 @@ Proof.
   destruct (zck_close H h st2) as [[|] st3]; congruence.
 Qed.
 Print Assumptions C02_unzck_failure_no_output.
+
+(** Reader completeness (the converse of T2.1, used by the round trip of property C01):
+    a file that the specification verifies and decodes to [D] is read back as [D] under EVERY
+    sequence of non-empty buffer sizes: no call fails; once a call has returned 0 the bytes
+    handed out are exactly [D] and zck_close returns true; a call returns 0 as soon as more
+    than [len D] reads have been issued.  Both compression types, with and without
+    dictionary, with and without the uncompressed-source flag; fuel [fuel_bound] =
+    3 * body length + 2 * entries + 1 loop iterations per call.  No further side condition. *)
+Theorem C02_valid_file_reads_back :
+  forall (H : N -> bytes -> bytes) (zdecomp : option bytes -> bytes -> N -> option bytes) p f h D fuel sizes,
+  wf_bytes f -> parse_impl H p f = POk h ->
+  spec_verify H h f = true -> spec_decode zdecomp h f = Some D ->
+  (fuel_bound h f <= fuel)%nat -> Forall (fun n => 0 < n) sizes ->
+  match read_all H zdecomp h fuel (open_state h f) sizes [] with
+  | (out, e, st') =>
+      e <> Some false /\
+      (e = Some true -> out = D /\ fst (zck_close H h st') = true) /\
+      (len D < N.of_nat (length sizes) -> e = Some true)
+  end.
+Proof.
+  intros H zdecomp p f h D fuel sizes Hwf Hp.
+  destruct (header_facts H p f h Hwf Hp) as (A & B & C).
+  exact (read_complete H zdecomp h f D fuel sizes A B C).
+Qed.
+Print Assumptions C02_valid_file_reads_back.
 
 (** Non-vacuity: a concrete sealed three-chunk file is read to the end and closed with
     success, with 2-byte buffers (zstd type) and with mixed buffers (uncompressed type);
